@@ -25,7 +25,7 @@ pub fn driver_path() -> String {
     std::env::var("VERIF_DRIVER").unwrap_or_else(|_| "/verif/lean/.lake/build/bin/driver".to_string())
 }
 
-fn run_driver(lines: &[String]) -> Result<Vec<String>, String> {
+pub fn run_driver(lines: &[String]) -> Result<Vec<String>, String> {
     let mut child = Command::new(driver_path())
         .stdin(Stdio::piped())
         .stdout(Stdio::piped())
@@ -80,6 +80,24 @@ pub fn run_cases(cases: &[Case], threads: usize) -> Result<Vec<Outcome>, String>
     for h in handles {
         let r = h.join().map_err(|_| "worker thread died".to_string())??;
         all.extend(r);
+    }
+    Ok(all)
+}
+
+/// Ask the driver a batch of generator / oracle questions, in parallel chunks.
+pub fn ask_driver(lines: &[String], threads: usize) -> Result<Vec<String>, String> {
+    if lines.is_empty() {
+        return Ok(vec![]);
+    }
+    let chunk = ((lines.len() + threads - 1) / threads).max(1);
+    let mut handles = Vec::new();
+    for part in lines.chunks(chunk) {
+        let part: Vec<String> = part.to_vec();
+        handles.push(std::thread::spawn(move || run_driver(&part)));
+    }
+    let mut all = Vec::with_capacity(lines.len());
+    for h in handles {
+        all.extend(h.join().map_err(|_| "driver thread died".to_string())??);
     }
     Ok(all)
 }
